@@ -39,7 +39,7 @@ Theorem C06_lexing_terminates_on_every_input : forall s, exists ls, lex_all lexe
 Proof. exact (lex_all_total lexer_rules). Qed.
 Print Assumptions C06_lexing_terminates_on_every_input.
 
-Theorem C06_lexing_step_bound : forall rules mf steps s line col, String.length s <= steps -> lex_from steps mf rules s line col <> None.
+Theorem C06_lexing_step_bound : forall rules steps s line col, String.length s <= steps -> lex_from steps rules s line col <> None.
 Proof. exact lex_total. Qed.
 Print Assumptions C06_lexing_step_bound.
 
